@@ -49,7 +49,12 @@ var c16routes = []string{"name", "alias", "param", "computed", "apply", "map", "
 
 // c16program builds the program for one (signature, usages, route, failing
 // argument, extra variadic arguments) point, or nil when the route does not apply.
+// c16earlier is set by c16program for the *-redefined routes: a definition that must have been
+// evaluated in an earlier EvalString (so that the interpreter already holds it when the new one is compiled).
+var c16earlier string
+
 func c16program(lazy []bool, use []string, variadic bool, route string, failAt int, extra int) []*T {
+	c16earlier = ""
 	zero := false
 	if failAt == -2 { // no failing argument, and the arguments evaluate to the falsy value 0
 		zero = true
@@ -141,7 +146,8 @@ func c16program(lazy []bool, use []string, variadic bool, route string, failAt i
 			flipped = append(flipped, p)
 		}
 		if route == "name-redefined" {
-			def = "(defn lz [" + strings.Join(flipped, " ") + "] 0) (defn lz [" + ps + "] " + body + ")"
+			c16earlier = "(defn lz [" + strings.Join(flipped, " ") + "] 0)"
+			def = "(defn lz [" + ps + "] " + body + ")"
 			call = "(lz " + as + ")"
 		} else {
 			var dummies []string
@@ -151,7 +157,8 @@ func c16program(lazy []bool, use []string, variadic bool, route string, failAt i
 			if variadic {
 				return nil
 			}
-			def = "(def v 5) (defn lz [n " + strings.Join(flipped, " ") + "] 0) (defn lz [n " + ps + "] (cond (== n 0) " + body + " (lz 0 " + as + ")))"
+			c16earlier = "(defn lz [n " + strings.Join(flipped, " ") + "] 0)"
+			def = "(def v 5) (defn lz [n " + ps + "] (cond (== n 0) " + body + " (lz 0 " + as + ")))"
 			call = "(lz 1 " + strings.Join(dummies, " ") + ")"
 		}
 	case "strict-twin":
@@ -260,7 +267,11 @@ func init() {
 							if variadic {
 								key += ",&"
 							}
-							res := diffProgram(c, "C16", c16prelude(), forms, 0, progOpts{keyExtra: key})
+							pre := c16prelude()
+							if c16earlier != "" {
+								pre = append(pre, Parse(c16earlier)...)
+							}
+							res := diffProgram(c, "C16", pre, forms, 0, progOpts{keyExtra: key})
 							if res.tr != nil {
 								res.tr.Env.Close()
 							}
@@ -271,6 +282,27 @@ func init() {
 		},
 		Replay: func(c *engine.Ctx, w string) {
 			replayProgram(c, "C16", c16prelude(), w, nil, progOpts{keyExtra: "*"})
+			if len(c.Viol) == 0 {
+				// a *-redefined witness needs the earlier definition with the opposite lazy positions
+				_, forms := parseWitness(w)
+				for _, f := range forms {
+					if f.K == 'l' && len(f.L) > 2 && f.L[0].IsSym("defn") && f.L[1].IsSym("lz") {
+						var flipped []string
+						for _, p := range f.L[2].L {
+							switch {
+							case p.S == "n" || p.S == "&" || p.S == "r":
+								flipped = append(flipped, p.S)
+							case strings.HasPrefix(p.S, "#"):
+								flipped = append(flipped, p.S[1:])
+							default:
+								flipped = append(flipped, "#"+p.S)
+							}
+						}
+						pre := append(c16prelude(), Parse("(defn lz ["+strings.Join(flipped, " ")+"] 0)")...)
+						replayProgram(c, "C16", pre, w, nil, progOpts{keyExtra: "*"})
+					}
+				}
+			}
 			for i := range c.Viol {
 				c.Viol[i].Key = "*"
 			}
